@@ -1370,7 +1370,8 @@ def varint_tie_modules():
     if all(VARINT_STATUS.get(f) == "translated" for f in ("varint_encode", "varint_decode", "varint_done")):
         mods.append("Ufw.Tie.VarintLoops.EndToEnd")   # the round trip of the property theorems, over the translated C
     wrappers = ("varint_decode", "varint_decode_u64", "varint_decode_s64", "varint_decode_u32", "varint_u64_length",
-                "varint_u32_length", "varint_s32_length", "varint_s64_length", "varint_from_source", "varint_done")
+                "varint_u32_length", "varint_s32_length", "varint_s64_length", "varint_from_source", "varint_done",
+                "varint_u64_from_source", "varint_u32_from_source")
     if all(VARINT_STATUS.get(f) == "translated" for f in wrappers):
         mods.append("Ufw.Tie.VarintLoops.Wrappers")   # the typed entry points
     return mods
